@@ -49,7 +49,7 @@ func ZZ_C15_Copies(sv *zzsv.T) {
 	}
 	mut := func(name string) *zzStmt { return stIncr(name, op, operand) }
 	var p *zzProg
-	scen := sv.Choice("scenario", 13)
+	scen := sv.Choice("scenario", 15)
 	switch scen {
 	case 0: // assignment copies
 		p = &zzProg{main: []*zzStmt{stSet("x", lit), stSet("y", xVar("x")), mut("y"), stT(xVar("y")), stRet(xVar("x"))}}
@@ -82,6 +82,15 @@ func ZZ_C15_Copies(sv *zzsv.T) {
 		sv.Assume(kind != 2)
 		p = &zzProg{funcs: []*zzFunc{{name: "f", body: []*zzStmt{stRet(xNeg(lit))}}},
 			main: []*zzStmt{stSet("x", lit), stSet("r", xCall("f")), mut("x"), stT(xVar("r")), stSet("r", xCall("f")), stT(xVar("r")), stRet(xVar("x"))}}
+	case 13: // the callee's parameter has the same name as the caller's own parameter it was copied from
+		p = &zzProg{funcs: []*zzFunc{
+			{name: "f", params: []string{"p"}, body: []*zzStmt{mut("p"), stRet(xVar("p"))}},
+			{name: "outer", params: []string{"p"}, body: []*zzStmt{stSet("r", xCall("f", xVar("p"))), stT(xVar("r")), stRet(xVar("p"))}}},
+			main: []*zzStmt{stSet("x", lit), stSet("y", xCall("outer", xVar("x"))), stT(xVar("y")), stRet(xVar("x"))}}
+	case 14: // ... or as the loop variable of the caller
+		p = &zzProg{funcs: []*zzFunc{
+			{name: "f", params: []string{"v"}, body: []*zzStmt{mut("v"), stRet(xVar("v"))}}},
+			main: []*zzStmt{stSet("x", lit), stEach("", "v", &zzExpr{kind: eArr, args: []*zzExpr{xVar("x"), xVar("x")}}, stSet("r", xCall("f", xVar("v"))), stT(xVar("r")), stT(xVar("v"))), stRet(xVar("x"))}}
 	default: // object field: y = F; y op; F unchanged
 		sv.Assume(kind == 0)
 		p = &zzProg{main: []*zzStmt{stSet("y", xVar("F")), mut("y"), stT(xVar("y")), stRet(xVar("F"))}}
